@@ -388,7 +388,7 @@ def run_check(prop, tier, seed, only=None, budget=None, jobs_max=None):
             continue
         nsh = part.quick_shards if tier == "quick" else part.shards
         n = part.quick if tier == "quick" else part.thorough
-        if n <= 0 and part.kind in ("given", "machine"):
+        if n <= 0 and part.kind in ("given", "machine", "custom") and part.custom is not None or (n <= 0 and part.kind in ("given", "machine")):
             continue
         for sh in range(nsh):
             jobs.append({"prop": prop, "part": part.name, "tier": tier, "shard": sh, "nshards": nsh, "n": n,
